@@ -125,6 +125,16 @@ def main():
     if extra_ax:
         broken.append({"kind": "axioms", "name": "Print Assumptions lists axioms not named in the trusted base",
                        "detail": extra_ax})
+    # thorough tier: the compiled property file and all it depends on re-checked by the independent checker
+    coqchk_info = None
+    if proof_ok and a.tier == "thorough" and not a.replay:
+        ok_chk, chk_axioms, chk_tail = coqrun.coqchk_axioms(mod.PROP_FILE)
+        coqchk_info = {"ran": True, "clean": bool(ok_chk), "axioms": chk_axioms}
+        if not ok_chk or chk_axioms is None:
+            broken.append({"kind": "proof", "name": "coqchk -o does not accept the compiled development", "detail": chk_tail})
+        elif [x for x in chk_axioms if x.split(":")[0].strip() not in allowed]:
+            broken.append({"kind": "axioms", "name": "coqchk -o lists axioms not named in the trusted base",
+                           "detail": chk_axioms})
     n_thm = len(getattr(mod, "THEOREMS", []))
     if proof_ok and n_thm and (n_closed + (1 if axioms else 0)) < 1:
         broken.append({"kind": "proof", "name": "no Print Assumptions output under the property theorems",
@@ -185,6 +195,7 @@ def main():
         "trusted_base": report.TRUSTED_BASE_COMMON + list(getattr(mod, "TRUSTED", [])),
         "theorems": list(getattr(mod, "THEOREMS", [])),
         "print_assumptions": {"closed_under_global_context": n_closed, "axioms": axioms},
+        "coqchk": coqchk_info or {"ran": False, "note": "coqchk -o runs in the thorough tier"},
         "proof_files": vfiles,
         "generated_from_source": gen_info,
         "evaluations": int(res["evaluations"]), "distinct_nontrivial": int(res["distinct_nontrivial"]),
